@@ -17,6 +17,11 @@ def FsBackend.storeEntry (d : DS) (fn : Fn) (arg : Arg) : Option (Nat × Option 
   | some (m, ck) => some (m, ck, (FsBackend.loadResult d ck).getD none)
   | none => none
 
+/-- a content key is either absent (the null result) or names a stored blob in the data area -/
+def CkOk (d : DS) (ck : Option (K × Ver)) : Prop :=
+  ck = none ∨ ∃ k ver b, ck = some (k, ver) ∧ k.isMetaArea = false ∧
+    alookup d.objs (k, ver) = some (.blob b)
+
 /-- well-formedness of the object store as the backend uses it -/
 structure DSWF (d : DS) : Prop where
   objFresh   : ∀ p ∈ d.objs, p.1.2 < d.next
@@ -26,24 +31,35 @@ structure DSWF (d : DS) : Prop where
   /-- every memento link names a memento document whose content key names a stored blob
       in the data area (or is absent: the null result) -/
   mementoOk  : ∀ fn arg v, alookup d.links (.memento fn arg) = some v →
-      ∃ m ck, alookup d.objs (.memento fn arg, v) = some (.mrec m ck) ∧
-        (ck = none ∨ ∃ k ver b, ck = some (k, ver) ∧ k.isMetaArea = false ∧
-            alookup d.objs (k, ver) = some (.blob b))
+      ∃ m ck, alookup d.objs (.memento fn arg, v) = some (.mrec m ck) ∧ CkOk d ck
   metaOk     : ∀ fn arg k v, alookup d.links (.mdat fn arg k false) = some v →
       ∃ b, alookup d.objs (.mdat fn arg k false, v) = some (.raw b)
+  /-- custom metadata is attached to memoized calls only (this is what `wmeta`-admissibility
+      maintains; `list_functions` lists the directories of the metadata area) -/
+  metaHasMemento : ∀ fn arg k wd v, alookup d.links (.mdat fn arg k wd) = some v →
+      (alookup d.links (.memento fn arg)).isSome
   /-- content-addressed objects: bytes determine the key (C07) -/
   contentOk  : ∀ h v c, alookup d.objs (.content h, v) = some c → c = .blob h
   /-- a content key has an object iff it has a link naming it: at most one object per key (C07) -/
   contentLinked : ∀ h v, (alookup d.objs (.content h, v)).isSome → alookup d.links (.content h) = some v
+  /-- byte-string identities stay inside the range that the object-identity encoding
+      `FsBackend.objId` / `FsBackend.objBytes` of the cache model can represent -/
+  blobSmall  : ∀ kv b, alookup d.objs kv = some (.blob b) → b + 1 < 1000000
+
+/-- a resident cache entry for call `k` says what the store says about `k` -/
+def EntryOk (s : FsBackend) (k : Cache.Key) (e : Cache.Entry) : Prop :=
+  ∃ ck vb, FsBackend.storeEntry s.ds k.fn k.arg = some (e.mem, ck, vb) ∧
+    alookup s.heap e.mem = some ⟨k.fn, k.arg, ck⟩ ∧
+    (e.hasValue = true → FsBackend.objBytes e.val = vb)
+
+/-- a weak reference for call `k` points at an object with the bytes the store holds for `k` -/
+def RefOk (s : FsBackend) (k : Cache.Key) (v : Nat) : Prop :=
+  ∃ m ck, FsBackend.storeEntry s.ds k.fn k.arg = some (m, ck, FsBackend.objBytes v)
 
 /-- the cache only ever says what the store says -/
 structure Coherent (s : FsBackend) (c : Cache.State) : Prop where
-  entryOk : ∀ k e, Cache.lookup c.cache k = some e →
-      ∃ ck vb, FsBackend.storeEntry s.ds k.fn k.arg = some (e.mem, ck, vb) ∧
-        alookup s.heap e.mem = some ⟨k.fn, k.arg, ck⟩ ∧
-        (e.hasValue = true → FsBackend.objBytes e.val = vb)
-  refOk : ∀ k v, Cache.refLookup c.refs k = some v →
-      ∃ m ck, FsBackend.storeEntry s.ds k.fn k.arg = some (m, ck, FsBackend.objBytes v)
+  entryOk : ∀ k e, (k, e) ∈ c.cache → EntryOk s k e
+  refOk : ∀ k v, (k, v) ∈ c.refs → RefOk s k v
   inv : Cache.Inv c
 
 structure WF (s : FsBackend) : Prop where
@@ -57,10 +73,16 @@ structure WF (s : FsBackend) : Prop where
   cacheOk  : ∀ c, s.cache = some c → Coherent s c
 
 /-- histories the property quantifies over: every `memoize` carries a new memento object, and
-    custom metadata is attached to memoized calls only -/
+    custom metadata is attached to memoized calls only.
+    Third conjunct for `memoize`: the identity of the value's byte string is below `999999` — the
+    cache model encodes the identity of a result object as `bytes id + 1 + 10^6 * generation`
+    (`FsBackend.objId`) and decodes it with `% 10^6` (`FsBackend.objBytes`), which is only
+    injective in that range.  It is a bound on the *naming* of byte strings in a history (any
+    history with fewer than 999999 distinct values can be named so), not on the backend. -/
 def FsBackend.admissible (s : FsBackend) : Op → Prop
-  | .memoize _ _ _ mem _ _ _ => alookup s.heap mem = none ∧
-      ∀ fn arg m ck, FsBackend.readMemento s.ds fn arg = some (m, ck) → m ≠ mem
+  | .memoize _ _ _ mem val _ _ => alookup s.heap mem = none ∧
+      (∀ fn arg m ck, FsBackend.readMemento s.ds fn arg = some (m, ck) → m ≠ mem) ∧
+      (∀ b, val = some b → b + 1 < 1000000)
   | .wmeta fn arg _ _ => (FsBackend.readMemento s.ds fn arg).isSome
   | _ => True
 
